@@ -1,0 +1,119 @@
+//go:build verif
+
+package bytes
+
+// Contracts for the deductive verifier in /verif (gocv). Comment-only file,
+// compiled only under the `verif` build tag.
+
+// ---- Buffer: ghost model of the byte store (sarr/soff: where its bytes live, ssize: its size) ----
+//@ ghostfield Buffer.sarr ref
+//@ ghostfield Buffer.soff int
+//@ ghostfield Buffer.ssize int
+//@ pred bufOK(b Buffer) = b != nil && b.sarr != nil && 0 <= b.ssize && b.ssize <= 1<<46 && 0 <= b.soff && b.soff <= 1<<46
+// byte x of the store
+//@ spec sbyte(b Buffer, x int) byte = byteAt(b.sarr, b.soff + x)
+
+//@ assumed func (b Buffer) Size() int64
+//@   requires b != nil
+//@   ensures r0 == b.ssize
+
+// Buffer returns a slice ALIASING the store bytes [offs, offs+min(size, Size-offs))
+//@ assumed func (b Buffer) Buffer(offs int64, size int) ([]byte, error)
+//@   requires bufOK(b) && 0 <= size && size <= 1<<46
+//@   ensures 0 <= offs && offs < b.ssize ==> r1 == nil && arr(r0) == b.sarr && off(r0) == b.soff + offs && len(r0) == min(size, b.ssize - offs) && cap(r0) >= len(r0)
+//@   ensures !(0 <= offs && offs < b.ssize) ==> r1 != nil && r0 == nil
+
+//@ package os
+//@ assumed func Getpagesize() int
+//@   ensures r0 >= 1
+//@ package github.com/acquirecloud/golibs/container/bytes
+
+// ---- the in-memory store is proved against the same model (sarr = arr(*ib), soff = off(*ib), ssize = len(*ib)) ----
+//@ func (ib *inmemBtsBuf) isClosed() bool
+//@   props C17
+//@   requires ib != nil
+//@   ensures r0 == (*ib == nil)
+
+//@ func (ib *inmemBtsBuf) Size() int64
+//@   props C17
+//@   requires ib != nil
+//@   ensures r0 == len(*ib)
+
+//@ func (ib *inmemBtsBuf) Buffer(offs int64, size int) ([]byte, error)
+//@   props C17
+//@   requires ib != nil && 0 <= size && size <= 1<<46
+//@   ensures *ib != nil && 0 <= offs && offs < len(*ib) ==> r1 == nil && sameArray(r0, *ib) && off(r0) == off(*ib) + offs && len(r0) == min(size, len(*ib) - offs)
+//@   ensures *ib == nil || !(0 <= offs && offs < len(*ib)) ==> r1 != nil && r0 == nil
+
+//@ func NewInMemBytes(size int) *inmemBtsBuf
+//@   props C17
+//@   requires size >= 0
+//@   ensures fresh(r0) && len(*r0) == size && forall(i, 0, size, (*r0)[i] == 0)
+
+// ---- C17: block allocator ----
+// bs = block size, B = blocks per segment (8*bs: one header bit per block), SS = bytes per segment
+//@ spec func (bks *Blocks) ss() int = (bks.blksInSegm + 1) * bks.blkSize
+// bit j of byte b
+//@ pred bitset(b byte, j int) = (b >> j) & 1 == 1
+// header byte p of segment s
+//@ spec func (bks *Blocks) hb(s int, p int) byte = sbyte(bks.bts, s * bks.ss() + p)
+// representation invariant: valid geometry inside the store; free hint: every header byte before freeIdx is full
+//@ pred (bks *Blocks) wf() = bks != nil && bufOK(bks.bts) && 1 <= bks.blkSize && bks.blkSize <= 1<<27 && bks.blksInSegm == 8 * bks.blkSize &&
+//@      1 <= bks.segments && bks.segments * bks.ss() <= bks.bts.ssize && 0 <= bks.freeIdx && bks.freeIdx <= bks.segments * bks.ss() &&
+//@      (bks.freeIdx < bks.segments * bks.ss() ==> bks.freeIdx % bks.ss() < bks.blkSize) &&
+//@      forall(s, int, forall(p, int, 0 <= s && s < bks.segments && 0 <= p && p < bks.blkSize && s * bks.ss() + p < bks.freeIdx ==> bks.hb(s, p) == 255))
+
+//@ func GetBlocksInSegment(blkSize int) int
+//@   props C17
+//@   ensures r0 == 0 - 1 || (r0 == blkSize * 8 + 1 && 1 <= blkSize && blkSize <= 1<<27)
+
+//@ func (bks *Blocks) Count() int
+//@   props C17
+//@   requires bks.wf()
+//@   ensures r0 == bks.segments * bks.blksInSegm
+
+//@ func (bks *Blocks) Segments() int
+//@   props C17
+//@   requires bks != nil
+//@   ensures r0 == bks.segments
+
+//@ func (bks *Blocks) Available() int
+//@   props C17
+//@   requires bks != nil
+//@   ensures r0 == bks.available
+
+//@ func (bks *Blocks) initAvailabe() error
+//@   props C17
+//@   requires bks.wf()
+//@   modifies bks.available
+//@   ensures r0 == nil
+//@   loop 1
+//@     invariant bks.wf() && 0 <= s && s <= bks.segments && 0 <= cnt && cnt <= s * bks.blksInSegm
+//@     decreases bks.segments - s
+//@   loop 2
+//@     invariant bks.wf() && 0 <= s && s < bks.segments && len(buf) == bks.blkSize && 0 - 1 <= rangeindex && rangeindex <= len(buf) - 1
+//@     invariant 0 <= cnt && cnt <= s * bks.blksInSegm + (rangeindex + 1) * 8
+//@     decreases len(buf) - rangeindex
+//@   loop 3
+//@     unroll 8
+
+//@ func NewBlocks(bs int, bts Buffer, fit bool) (*Blocks, error)
+//@   props C17
+//@   requires bufOK(bts)
+//@   ensures r1 == nil ==> fresh(r0) && r0.wf() && r0.blkSize == bs && r0.bts == bts && r0.freeIdx == 0 && r0.segments == bts.ssize / ((bs * 8 + 1) * bs) && (fit ==> bts.ssize % ((bs * 8 + 1) * bs) == 0)
+//@   ensures r1 != nil ==> r0 == nil && errIs(r1, errors.ErrInvalid)
+// a geometry that does not fit the store is rejected
+//@   ensures bs < 1 || bs > 1<<27 ==> r1 != nil
+//@   ensures bs >= 1 && bs <= 1<<27 && (bts.ssize < (bs * 8 + 1) * bs || (fit && bts.ssize % ((bs * 8 + 1) * bs) != 0)) ==> r1 != nil
+
+//@ func (bks *Blocks) Block(idx int) ([]byte, error)
+//@   props C17
+//@   requires bks.wf()
+//@   ensures 0 <= idx && idx < bks.segments * bks.blksInSegm ==> r1 == nil && arr(r0) == bks.bts.sarr && len(r0) == bks.blkSize && off(r0) == bks.bts.soff + (idx + idx / bks.blksInSegm + 1) * bks.blkSize
+//@   ensures !(0 <= idx && idx < bks.segments * bks.blksInSegm) ==> r0 == nil && errIs(r1, errors.ErrInvalid)
+
+//@ func (bks *Blocks) getBlockIdxInHdr(idx int) (int64, int, uint)
+//@   props C17
+//@   requires bks.wf()
+//@   ensures !(0 <= idx && idx < bks.segments * bks.blksInSegm) ==> r0 == 0 - 1 && r1 == 0 - 1 && r2 == 0
+//@   ensures 0 <= idx && idx < bks.segments * bks.blksInSegm ==> r0 == (idx / bks.blksInSegm) * bks.ss() && r1 == (idx % bks.blksInSegm) / 8 && r2 == (idx % bks.blksInSegm) % 8 && 0 <= r1 && r1 < bks.blkSize && 0 <= r0 && r0 + bks.blkSize <= bks.bts.ssize
